@@ -39,21 +39,21 @@ META = {
                {"name": "defs", "flavour": "S", "shards": 8}],
     "gates": {
         "quick": {"evaluations": 700000, "states": 600, "copies": 4000, "batteries_completed": 4000,
-                  "values_compared": 250000, "transient_checked": 15000,
+                  "values_compared": 230000, "transient_checked": 15000,
                   "transient_nondefault_in_original": 2500, "sharing_checked": 4000,
                   "live_rejected": 60000, "live_accepted": 35000, "live_converted": 15000,
                   "live_notify_probes": 45000, "live_notifications": 100000, "property_steps": 20000,
-                  "readonly_checked": 2000, "container_copies": 2000,
+                  "readonly_checked": 2000, "container_copies": 2000, "ref_identity_checked": 250,
                   "def_kinds": 120, "def_roundtrips": 600, "def_roundtrips_sanitized": 300,
-                  "def_validate_comparisons": 140000, "def_install_steps": 80000},
-        "thorough": {"evaluations": 20000000, "states": 18000, "copies": 120000, "batteries_completed": 120000,
-                     "values_compared": 7500000, "transient_checked": 450000,
-                     "transient_nondefault_in_original": 75000, "sharing_checked": 120000,
-                     "live_rejected": 1800000, "live_accepted": 1000000, "live_converted": 450000,
-                     "live_notify_probes": 1300000, "live_notifications": 3000000, "property_steps": 600000,
-                     "readonly_checked": 60000, "container_copies": 60000,
+                  "def_validate_comparisons": 120000, "def_install_steps": 80000},
+        "thorough": {"evaluations": 10000000, "states": 12000, "copies": 80000, "batteries_completed": 80000,
+                     "values_compared": 5000000, "transient_checked": 300000,
+                     "transient_nondefault_in_original": 50000, "sharing_checked": 80000,
+                     "live_rejected": 1200000, "live_accepted": 700000, "live_converted": 300000,
+                     "live_notify_probes": 900000, "live_notifications": 2000000, "property_steps": 400000,
+                     "readonly_checked": 40000, "container_copies": 45000, "ref_identity_checked": 5000,
                      "def_kinds": 120, "def_roundtrips": 600, "def_roundtrips_sanitized": 300,
-                     "def_validate_comparisons": 140000, "def_install_steps": 80000},
+                     "def_validate_comparisons": 120000, "def_install_steps": 80000},
     },
     "assumptions": [
         "vf/reference.py decides which items a container of the copy must reject / convert",
